@@ -182,11 +182,17 @@ NormalNF(nf) == nf = Zero \/ (nf[1] \in {0, 1} /\ nf[2] \in 32768..65535 /\ nf[3
 AbsDiff(x, y) == IF x < y THEN y - x ELSE x - y
 \* "close": equal, or one unit apart in the last of the 32 mantissa bits
 NFClose(x, y) == x = y \/ (x # Zero /\ y # Zero /\ x[1] = y[1] /\ x[4] = y[4] /\ x[2] = y[2] /\ AbsDiff(x[3], y[3]) <= 1)
+\* "grossly different": not within a factor 1 +- 2^-14 of each other (zero against anything of at least 2^-14)
 NFGross(x, y) ==
   IF x = Zero /\ y = Zero THEN FALSE
   ELSE IF x = Zero THEN y[4] >= -45
   ELSE IF y = Zero THEN x[4] >= -45
-  ELSE x[1] # y[1] \/ AbsDiff(x[4], y[4]) >= 2 \/ (x[4] = y[4] /\ AbsDiff(x[2], y[2]) >= 2)
+  ELSE IF x[1] # y[1] THEN TRUE
+  ELSE IF x[4] = y[4] THEN AbsDiff(x[2], y[2]) >= 2
+  ELSE IF AbsDiff(x[4], y[4]) >= 2 THEN TRUE
+  ELSE LET a == IF x[4] < y[4] THEN x ELSE y          \* the one with the smaller exponent
+           b == IF x[4] < y[4] THEN y ELSE x IN
+       ~(a[2] >= 65534 /\ b[2] <= 32769)
 
 ----------------------------------------------------------------------------
 (* Items: the units a line's text is made of *)
